@@ -534,4 +534,19 @@ func (*compiler).VisitCastExpr [C02, C01]
   nopanic
   ensures c.latestReturnType == descr(c, tcls(e.TargetType))
   ensures ir.irty(c.latestReturn) == tcls(e.TargetType)
+
+// leaving a function: its parameters (never references) and, forced, every temporary of the function scope
+func (*compiler).exitFuncScope [C05]
+  requires c != nil && c.cbb != nil && c.cfscp != nil && fun != nil
+  callsite freeNonPrimitive requires !v.isRef && arg1 == v.val && arg2 == v.typ
+  callsite freeTemporaries requires arg1 == c.cfscp && arg2
+// return from nested scopes: every scope between the current one and the function scope releases its variables
+// (never references) and, forced, its temporaries; then the function scope itself
+func (*compiler).VisitReturnStmt$1 [C05]
+  requires c != nil && c.cbb != nil && c.cfscp != nil && s != nil && s.Func != nil
+  // (releasing emits calls only: it does not rebind the compiler's blocks and scopes)
+  preserves compiler.compiler
+  callsite freeNonPrimitive requires !Var.isRef && arg1 == Var.val && arg2 == Var.typ
+  callsite freeTemporaries requires arg1 == scp && arg2
+  callsite exitFuncScope requires arg1 == s.Func
 @*/
